@@ -161,6 +161,9 @@ func (root *Schema) Resolve(opts *ResolveOptions) (*Resolved, error) {
 	//    in a map from URIs to schemas within root.
 	// 4. Resolve references: all refs in the schemas are replaced with the schema they refer to.
 	// 5. (Optional.) If opts.ValidateDefaults is true, validate the defaults.
+	if root == nil {
+		return nil, errors.New("jsonschema: cannot resolve a nil schema")
+	}
 	r := &resolver{loaded: map[string]*Resolved{}}
 	if opts != nil {
 		r.opts = *opts
@@ -544,6 +547,9 @@ func (r *resolver) resolveRef(rs *Resolved, s *Schema, ref string) (_ *Schema, d
 			ls, err := r.opts.Loader(fraglessRefURI)
 			if err != nil {
 				return nil, "", fmt.Errorf("loading %s: %w", fraglessRefURI, err)
+			}
+			if ls == nil {
+				return nil, "", fmt.Errorf("loading %s: loader returned a nil schema", fraglessRefURI)
 			}
 			// Check if referenced schema has $schema defined. If not it should inherit the resolved
 			if ls.Schema == "" {
